@@ -2,6 +2,7 @@ package c15
 
 import (
 	"fmt"
+	"math"
 	"strings"
 
 	"pgregory.net/rapid"
@@ -68,16 +69,85 @@ func (s *script) String() string {
 
 func (s *script) reading() bool { return s.method != mDiscard }
 
-func genScript(t *rapid.T, label string, size int) *script {
+// Kinds of out-of-domain arguments a consumer may pass. What the offending
+// consumer itself gets back is property C09's business; C15 only cares that
+// it returns, and that its siblings, the tasks above it and the source are
+// none the worse for it.
+const (
+	oodNone     = ""
+	oodNegative = "negative_offset" // ReadAt / ToChunkReader at an offset < 0
+	oodBeyond   = "beyond_offset"   // ToChunkReader beyond the size, ReadAt beyond size+1
+	oodTightMax = "max_below_size"  // ToByteSlice / ToProto with a maximum below the size
+)
+
+// outOfDomain names the kind of out-of-domain argument of the script for an
+// object of the given (declared) size.
+func (s *script) outOfDomain(size int) string {
+	switch s.method {
+	case mByteSlice, mProto:
+		if s.max < size {
+			return oodTightMax
+		}
+	case mReadAt:
+		if s.off < 0 {
+			return oodNegative
+		}
+		if s.off > size+1 {
+			return oodBeyond
+		}
+	case mChunkReader:
+		if s.off < 0 {
+			return oodNegative
+		}
+		if s.off > size {
+			return oodBeyond
+		}
+	}
+	return oodNone
+}
+
+// genBadOffset draws an offset outside 0..limit: just outside, a little
+// outside, far outside, and the extremes of int64.
+func genBadOffset(t *rapid.T, label string, limit int) int {
+	small := rapid.IntRange(2, 9).Draw(t, label+"/oodBy")
+	return rapid.SampledFrom([]int{
+		-1, -small, -(1 << 40), math.MinInt64,
+		limit + 1, limit + small, limit + 1<<40, math.MaxInt64,
+	}).Draw(t, label+"/oodOff")
+}
+
+// genBadMax draws a maximum size below size (negative ones included).
+func genBadMax(t *rapid.T, label string, size int) int {
+	c := []int{-1, math.MinInt32}
+	if size > 0 {
+		c = append(c, 0, size-1, rapid.IntRange(0, size-1).Draw(t, label+"/oodMaxAt"))
+	}
+	return rapid.SampledFrom(c).Draw(t, label+"/oodMax")
+}
+
+// genScript draws a consumer script. forceOOD: the script must carry an
+// out-of-domain argument (only methods that take one are drawn then);
+// otherwise one in six of those methods does.
+func genScript(t *rapid.T, label string, size int, forceOOD bool) *script {
 	s := &script{n: -1}
 	// Streaming methods twice as likely: they are where interleavings matter.
-	s.method = rapid.SampledFrom([]int{mByteSlice, mProto, mIntoWriter, mReadAt, mReader, mReader, mChunkReader, mChunkReader, mDiscard}).Draw(t, label+"/method")
+	methods := []int{mByteSlice, mProto, mIntoWriter, mReadAt, mReader, mReader, mChunkReader, mChunkReader, mDiscard}
+	if forceOOD {
+		methods = []int{mByteSlice, mProto, mReadAt, mReadAt, mChunkReader, mChunkReader, mChunkReader}
+	}
+	s.method = rapid.SampledFrom(methods).Draw(t, label+"/method")
 	s.sizeFirst = rapid.IntRange(0, 2).Draw(t, label+"/sizeFirst") == 2
+	ood := forceOOD
+	if !ood && (s.method == mReadAt || s.method == mChunkReader) {
+		ood = rapid.IntRange(0, 5).Draw(t, label+"/ood") == 0
+	}
 	switch s.method {
 	case mByteSlice, mProto:
 		s.max = size + 100
-		if rapid.IntRange(0, 7).Draw(t, label+"/tight") == 0 {
-			s.max = rapid.IntRange(0, size).Draw(t, label+"/max")
+		if ood {
+			s.max = genBadMax(t, label, size)
+		} else if rapid.IntRange(0, 7).Draw(t, label+"/tight") == 0 {
+			s.max = rapid.IntRange(-1, size).Draw(t, label+"/max")
 		}
 	case mIntoWriter:
 		if rapid.IntRange(0, 4).Draw(t, label+"/writerFails") == 0 {
@@ -86,6 +156,9 @@ func genScript(t *rapid.T, label string, size int) *script {
 	case mReadAt:
 		s.off = rapid.IntRange(0, size+1).Draw(t, label+"/off")
 		s.n = rapid.IntRange(0, size+2).Draw(t, label+"/len")
+		if ood {
+			s.off = genBadOffset(t, label, size+1)
+		}
 	case mReader:
 		s.reads = rapid.SliceOfN(rapid.IntRange(0, 8), 0, 4).Draw(t, label+"/reads")
 		s.toEnd = rapid.IntRange(0, 2).Draw(t, label+"/toEnd") > 0
@@ -95,6 +168,9 @@ func genScript(t *rapid.T, label string, size int) *script {
 		s.max = rapid.IntRange(1, 9).Draw(t, label+"/chunkMax")
 		s.reads = make([]int, rapid.IntRange(0, 4).Draw(t, label+"/nreads"))
 		s.toEnd = rapid.IntRange(0, 2).Draw(t, label+"/toEnd") > 0
+		if ood {
+			s.off = genBadOffset(t, label, size)
+		}
 	}
 	return s
 }
@@ -161,8 +237,6 @@ type genState struct {
 }
 
 func genNode(t *rapid.T, g *genState, depth int, label string) *node {
-	n := &node{id: g.nextID}
-	g.nextID++
 	choices := []int{opLeaf}
 	if depth > 0 {
 		choices = []int{opLeaf, opLeaf, opWithTask, opWithTask, opErrHandler}
@@ -171,15 +245,21 @@ func genNode(t *rapid.T, g *genState, depth int, label string) *node {
 			choices = append(choices, opCloneStream, opCloneStream, opCloneStream, opCloneCopy, opTeeTask, opTeeTask)
 		}
 	}
-	n.op = rapid.SampledFrom(choices).Draw(t, label+"/op")
+	return genNodeOp(t, g, depth, label, rapid.SampledFrom(choices).Draw(t, label+"/op"))
+}
+
+// genNodeOp generates a subtree whose root applies the given operation.
+func genNodeOp(t *rapid.T, g *genState, depth int, label string, op int) *node {
+	n := &node{id: g.nextID, op: op}
+	g.nextID++
 	switch n.op {
 	case opLeaf:
-		n.script = genScript(t, label, g.size)
+		n.script = genScript(t, label, g.size, false)
 	case opCloneStream, opCloneCopy:
 		if n.op == opCloneCopy {
 			n.max = g.size + 100
 			if rapid.IntRange(0, 5).Draw(t, label+"/tight") == 0 {
-				n.max = rapid.IntRange(0, g.size).Draw(t, label+"/max")
+				n.max = rapid.IntRange(-1, g.size).Draw(t, label+"/max")
 			}
 		}
 		g.consumers--
@@ -190,7 +270,7 @@ func genNode(t *rapid.T, g *genState, depth int, label string) *node {
 	case opTeeTask:
 		n.taskFail = rapid.IntRange(0, 2).Draw(t, label+"/fail") == 2
 		g.consumers--
-		n.script = genScript(t, label+"/task", g.size)
+		n.script = genScript(t, label+"/task", g.size, false)
 		n.kids = []*node{genNode(t, g, depth-1, label+".0")}
 	case opErrHandler:
 		n.kids = []*node{genNode(t, g, depth-1, label+".0")}
@@ -278,5 +358,74 @@ func genProgram(t *rapid.T) *program {
 	p.root = genNode(t, g, 4, "n")
 	annotate(p.root, nil, map[*node]bool{}, false, false, g.size)
 	p.schedule = rapid.SliceOfN(rapid.IntRange(0, 63), 0, 48).Draw(t, "schedule")
+	return p
+}
+
+// scripts lists every consumer script of the tree (leaves and the consumers
+// inside TeeTask tasks) with the node it belongs to.
+func scripts(root *node) []*node {
+	var out []*node
+	walk(root, func(n *node) {
+		if n.op == opLeaf || n.op == opTeeTask {
+			out = append(out, n)
+		}
+	})
+	return out
+}
+
+// hasOutOfDomainUnderStreamClone: some consumer with an out-of-domain
+// argument shares a stream clone with somebody else (it sits below a
+// CloneStream / TeeTask, or it is the consumer inside a TeeTask task).
+func hasOutOfDomainUnderStreamClone(root *node, size int) bool {
+	found := false
+	for _, n := range scripts(root) {
+		if n.script.outOfDomain(size) != oodNone && (n.streamAbove || n.op == opTeeTask) {
+			found = true
+		}
+	}
+	return found
+}
+
+// genProgramOutOfDomain: programs in which one consumer passes an
+// out-of-domain argument while it shares a stream clone with other
+// consumers or with a task: the root region is one of the shapes the
+// callers in the repository build (CloneStream for mirrored / read-caching
+// writes, TeeTask for FlatBlobAccess.Get's refresh and
+// LocalBlobReplicator.ReplicateSingle), optionally under a task, an error
+// handler or a tight CloneCopy; everything below is generated as usual.
+func genProgramOutOfDomain(t *rapid.T) *program {
+	p := &program{src: genSourceBiased(t, true)}
+	g := &genState{consumers: 4, size: len(p.src.data)}
+	wrap := rapid.SampledFrom([]int{opLeaf, opLeaf, opLeaf, opWithTask, opErrHandler, opCloneStream, opTeeTask}).Draw(t, "ood/wrap")
+	inner := rapid.SampledFrom([]int{opCloneStream, opCloneStream, opTeeTask, opTeeTask, opCloneCopy}).Draw(t, "ood/inner")
+	if inner == opCloneCopy {
+		// A copying clone is only interesting here when a stream clone
+		// surrounds it.
+		wrap = rapid.SampledFrom([]int{opCloneStream, opTeeTask}).Draw(t, "ood/wrapCopy")
+	}
+	if wrap == opLeaf {
+		p.root = genNodeOp(t, g, 3, "n", inner)
+	} else {
+		// genNodeOp generates the children freely; replace the first one
+		// by the forced inner shape.
+		p.root = genNodeOp(t, g, 1, "n", wrap)
+		p.root.kids[0] = genNodeOp(t, g, 2, "n.0", inner)
+	}
+	if inner == opCloneCopy && rapid.Bool().Draw(t, "ood/tightCopy") {
+		cc := p.root.kids[0]
+		cc.max = genBadMax(t, "ood/copy", g.size)
+	}
+	// One consumer is the offender.
+	ss := scripts(p.root)
+	victim := ss[rapid.IntRange(0, len(ss)-1).Draw(t, "ood/offender")]
+	victim.script = genScript(t, "ood/script", g.size, true)
+	// ids in pre-order, as everywhere else
+	id := 0
+	walk(p.root, func(n *node) {
+		n.id = id
+		id++
+	})
+	annotate(p.root, nil, map[*node]bool{}, false, false, g.size)
+	p.schedule = rapid.SliceOfN(rapid.IntRange(0, 63), 0, 32).Draw(t, "schedule")
 	return p
 }
